@@ -151,6 +151,8 @@ def _observe(case: dict) -> dict:
     from .. import build as _B  # noqa: F401  (brings the tree under test in)
     from antismash.detection.nrps_pks_domains.module_identification import CDSModuleInfo, combine_modules
     inp = case["input"]
+    if inp["kind"] == "record":
+        return _observe_record(case)
     event = {"id": case["id"], "op": inp["kind"]}
     if inp["kind"] == "gene":
         event["inp"] = [_domrec(*dom) for dom in inp["doms"]]
@@ -199,6 +201,45 @@ def _observe(case: dict) -> dict:
     return event
 
 
+def _observe_record(case: dict) -> dict:
+    """ three consecutive genes of one region through the real generate_domains (the loop that feeds combine_modules);
+        the HMMer-backed searches are replaced by the fixed hits of the case """
+    from unittest import mock
+    from .. import build as B
+    from antismash.common.hmmscan_refinement import HMMResult
+    from antismash.common.secmet.features import SubRegion
+    from antismash.common.secmet.locations import FeatureLocation
+    from antismash.common.secmet.test.helpers import DummyCDS
+    from antismash.detection.nrps_pks_domains import domain_identification
+    inp = case["input"]
+    event = {"id": case["id"], "op": "record", "strands": inp["strands"],
+             "genes": [[_domrec(*dom) for dom in doms] for doms in inp["genes"]], "motifs": inp["motifs"]}
+    try:
+        record = B.record(3 * 1200, False)
+        names = ["g1", "g2", "g3"]
+        for pos, (name, strand) in enumerate(zip(names, inp["strands"])):
+            record.add_cds_feature(DummyCDS(start=pos * 1200 + 30, end=pos * 1200 + 1110, strand=strand, locus_tag=name,
+                                            translation="M" + "A" * 359))
+        record.add_subregion(SubRegion(FeatureLocation(0, 3600, 1), tool="verif", label="all"))
+        record.create_regions()
+        domains = {name: _hits(doms) for name, doms in zip(names, inp["genes"]) if doms}
+        motifs = {name: [HMMResult("NRPS-A_a3", 1, 5, 1e-5, 20.)] for name, has in zip(names, inp["motifs"]) if has}
+        with mock.patch.object(domain_identification, "find_domains", return_value=domains), \
+                mock.patch.object(domain_identification, "find_subtypes", return_value={}), \
+                mock.patch.object(domain_identification, "find_ab_motifs", return_value=motifs), \
+                mock.patch.object(domain_identification, "get_database_path", return_value=""):
+            results = domain_identification.generate_domains(record)
+        index = {name: pos + 1 for pos, name in enumerate(names)}
+        by_name = {cds.get_name(): res for cds, res in results.cds_results.items()}
+        event["mods"] = [[{"complete": bool(m.is_complete()), "genes": [index[comp.locus] for comp in m.components]}
+                          for m in (by_name[name].modules if name in by_name else [])] for name in names]
+        event["exc"] = ""
+    except Exception as err:  # pylint: disable=broad-except
+        event["exc"] = type(err).__name__
+        event["mods"] = [[], [], []]
+    return event
+
+
 def _observe_many(cases):
     return [_observe(case) for case in cases]
 
@@ -212,6 +253,9 @@ def _hit_text(doms) -> str:
 def call_text(inp: dict) -> str:
     head = ("hit = lambda l, i, sub=None: HMMResult(l, i*10, i*10+9, 1e-5, 50., internal_hits="
             "[HMMResult(sub, i*10, i*10+9, 1e-5, 50.)] if sub else None); ")
+    if inp["kind"] == "record":
+        return (f"props.c14._observe_record({{'id': 0, 'input': {inp}}})  # three genes g1..g3 in one region, "
+                "domain_identification.generate_domains(record) with find_domains / find_ab_motifs returning the hits of the case")
     if inp["kind"] == "gene":
         order = f" (passed in order {inp['order']})" if inp.get("order") else ""
         return (head + f"ms = build_modules_for_cds({_hit_text(inp['doms'])}, 'g1'){order}; "
@@ -228,7 +272,7 @@ def _class_of(label: str) -> str:
 def _features(inp: dict) -> list:
     """ literals computed from the abstract input only """
     feats = [inp["kind"]]
-    genes = [inp["doms"]] if inp["kind"] == "gene" else [inp["up"], inp["down"]]
+    genes = [inp["doms"]] if inp["kind"] == "gene" else (inp["genes"] if inp["kind"] == "record" else [inp["up"], inp["down"]])
     if any(sub == "Trans-AT-KS" or label == "Trans-AT_docking" for gene in genes for label, sub in gene):
         feats.append("trans_at_marker")
     for gene in genes:
@@ -247,7 +291,7 @@ def _features(inp: dict) -> list:
 
 
 def _nontrivial(inp: dict) -> bool:
-    genes = [inp["doms"]] if inp["kind"] == "gene" else [inp["up"], inp["down"]]
+    genes = [inp["doms"]] if inp["kind"] == "gene" else (inp["genes"] if inp["kind"] == "record" else [inp["up"], inp["down"]])
     classes = {_class_of(label) for gene in genes for label, _ in gene}
     return "CP" in classes and bool(classes & {"A", "AT", "KS", "C", "S"})
 
@@ -270,7 +314,7 @@ class _ById:
 
 
 def _observed(event: dict) -> dict:
-    return {k: v for k, v in event.items() if k in ("res", "rl", "pa", "pb", "obs")}
+    return {k: v for k, v in event.items() if k in ("res", "rl", "pa", "pb", "obs", "mods", "exc")}
 
 
 def describe(case: dict, event: dict) -> dict:
@@ -339,6 +383,20 @@ def _random_cases(rng, count):
             order = list(range(length))
             rng.shuffle(order)
             cases.append({"sampled": True, "input": {"kind": "gene", "doms": doms, "order": order}})
+    # three consecutive genes of a region: fragments that complete each other in the outer genes, and in between a gene
+    # with a module of its own, with docking domains / motif hits only, or with nothing at all
+    fragments = [([("PKS_KS", ""), ("PKS_AT", "")], [("PKS_ER", ""), ("PP-binding", "")]),
+                 ([("Condensation_LCL", ""), ("AMP-binding", "")], [("PCP", "")]),
+                 ([("PKS_KS", ""), ("PKS_AT", ""), ("PKS_KR", "")], [("ACP", ""), ("Thioesterase", "")])]
+    middles = [[], [("PKS_Docking_Nterm", "")], [("NRPS-COM_Cterm", "")], [("PKS_KS", ""), ("PKS_AT", ""), ("ACP", "")], [("PCP", "")]]
+    for _ in range(max(30, count // 40)):
+        up, down = rng.choice(fragments)
+        middle = rng.choice(middles)
+        strand = rng.choice([1, -1])
+        genes = [up, middle, down] if strand == 1 else [down, middle, up]
+        strands = [strand, rng.choice([strand, strand, -strand]), strand]
+        cases.append({"sampled": True, "input": {"kind": "record", "genes": genes, "strands": strands,
+                                                 "motifs": [False, rng.random() < 0.4 and not middle, False]}})
     return cases
 
 
